@@ -49,11 +49,13 @@ Definition uop2 (T : nty) (o : uop) : op2 :=
   end.
 Definition is_arith (o : uop) : bool := match o with UAdd | USub | UMul | UDiv => true | _ => false end.
 Definition is_shift (o : uop) : bool := match o with UShl | UShr => true | _ => false end.
+Definition is_bitop (o : uop) : bool := match o with UAnd | UOr | UXor => true | _ => false end.
 
 (* builtins/functions.py _UnsafeMath.build_IR; expr.py parse_BinOp for the bit operations and shifts *)
 Definition m_unsafe (T : nty) (o : uop) (ea eb : lir) : lir :=
   let k := nbytes T in
-  let r := if is_shift o then L2 (uop2 T o) eb ea else L2 (uop2 T o) ea eb in
+  (* the commutative bit operations list their operands in reverse (IR arguments are evaluated last-to-first) *)
+  let r := if is_shift o || is_bitop o then L2 (uop2 T o) eb ea else L2 (uop2 T o) ea eb in
   if is_arith o && (k <? 32)
   then (if nsigned T then L2 OSignextend (LInt (k - 1)) r else L2 OMod r (LInt (2 ^ (8 * k))))
   else r.
@@ -146,7 +148,7 @@ Theorem unsafe_arith_exact T o e ea eb x y : ty_ok T -> ndec T = false -> in_ran
   leval e (m_unsafe T o ea eb) = Val (wrap (unsafe_spec T o x y)).
 Proof.
   intros OkT ND Hx Hy A Ha Hb. pose proof (arith_word T o x y OkT Hx Hy A) as AW.
-  unfold m_unsafe, unsafe_spec. rewrite A. replace (is_shift o) with false by (destruct o; try discriminate A; reflexivity).
+  unfold m_unsafe, unsafe_spec. rewrite A. replace (is_shift o || is_bitop o) with false by (destruct o; try discriminate A; reflexivity).
   destruct T as [k s d]. destruct OkT as [Hk _]. cbn [nbytes nsigned ndec] in *. subst d. cbn [andb].
   destruct (Z.ltb_spec k 32).
   - destruct s; cbn [leval]; rewrite Hb, Ha; cbn [leval ev2]; rewrite AW; f_equal.
@@ -168,3 +170,103 @@ Proof.
     + apply and_mask_wrap. lia.
   - assert (k = 32) by lia. subst k. pstep. unfold enc. rewrite AW. f_equal. symmetry. apply wrap_twrap256.
 Qed.
+
+(* ---------------- pow_mod256, shifts, bit operations: the word of the exact (unbounded) result ---------------- *)
+Lemma bitop_mod (f : Z -> Z -> Z) (g : bool -> bool -> bool) n x y :
+  0 <= n -> g false false = false ->
+  (forall a b i, Z.testbit (f a b) i = g (Z.testbit a i) (Z.testbit b i)) ->
+  f (x mod 2 ^ n) (y mod 2 ^ n) = (f x y) mod 2 ^ n.
+Proof.
+  intros Hn G S. apply Z.bits_inj'. intros i Hi. rewrite S.
+  destruct (Z_lt_dec i n).
+  - rewrite !Z.mod_pow2_bits_low by lia. rewrite S. reflexivity.
+  - rewrite !Z.mod_pow2_bits_high by lia. exact G.
+Qed.
+Lemma w_and_wrap x y : w_and (wrap x) (wrap y) = wrap (Z.land x y).
+Proof. unfold w_and, wrap, W. apply (bitop_mod Z.land andb); [lia | reflexivity | intros; apply Z.land_spec]. Qed.
+Lemma w_or_wrap x y : w_or (wrap x) (wrap y) = wrap (Z.lor x y).
+Proof. unfold w_or, wrap, W. apply (bitop_mod Z.lor orb); [lia | reflexivity | intros; apply Z.lor_spec]. Qed.
+Lemma w_xor_wrap x y : w_xor (wrap x) (wrap y) = wrap (Z.lxor x y).
+Proof. unfold w_xor, wrap, W. apply (bitop_mod Z.lxor xorb); [lia | reflexivity | intros; apply Z.lxor_spec]. Qed.
+
+Lemma W_div_pow y : 256 <= y -> exists c, 2 ^ y = c * W.
+Proof. intros H. exists (2 ^ (y - 256)). unfold W. rewrite <- Z.pow_add_r by lia. f_equal. lia. Qed.
+
+Lemma w_shl_wrap x y : 0 <= y < W -> w_shl y (wrap x) = wrap (x * 2 ^ y).
+Proof.
+  intros Hy. pose proof W_val. unfold w_shl. destruct (Z.ltb_spec y 256).
+  - unfold wrap. rewrite Zmult_mod_idemp_l. reflexivity.
+  - destruct (W_div_pow y H0) as [c E]. unfold wrap. rewrite E, Z.mul_assoc. rewrite Z_mod_mult. reflexivity.
+Qed.
+Lemma w_shr_wrap x y : 0 <= y < W -> 0 <= x < W -> w_shr y x = wrap (x / 2 ^ y).
+Proof.
+  intros Hy Hx. pose proof W_val. unfold w_shr.
+  assert (P : 0 < 2 ^ y) by (apply Z.pow_pos_nonneg; lia).
+  assert (Q : 0 <= x / 2 ^ y <= x) by (split; [apply Z.div_pos; lia | apply Z.div_le_upper_bound; nia]).
+  destruct (Z.ltb_spec y 256).
+  - symmetry. apply wrap_small. lia.
+  - destruct (W_div_pow y H0) as [c E]. assert (1 <= c) by nia.
+    rewrite Z.div_small by nia. reflexivity.
+Qed.
+Lemma w_sar_wrap x y : 0 <= y < W -> sword x -> w_sar y (wrap x) = wrap (x / 2 ^ y).
+Proof.
+  intros Hy Hx. pose proof W_val. pose proof HALF_val. unfold w_sar, of_signed. rewrite (ts_wrap x Hx).
+  destruct (Z.ltb_spec y 256); [reflexivity|].
+  destruct (W_div_pow y H1) as [c E]. assert (P : 0 < 2 ^ y) by (apply Z.pow_pos_nonneg; lia). assert (1 <= c) by nia.
+  unfold sword, MINS, MAXS in Hx.
+  destruct (Z.ltb_spec x 0).
+  - assert (DV : x / 2 ^ y = -1) by (symmetry; apply Z.div_unique with (r := x + 2 ^ y); nia). rewrite DV. reflexivity.
+  - rewrite Z.div_small by nia. reflexivity.
+Qed.
+
+Definition bits_ok (T : nty) (o : uop) (y : Z) : Prop :=
+  match o with
+  | UPowMod => T = Build_nty 32 false false
+  | UShl | UShr => nbytes T = 32 /\ ndec T = false /\ 0 <= y < W
+  | UAnd | UOr | UXor => True
+  | _ => False
+  end.
+
+Lemma bits_word T o x y : ty_ok T -> in_range T x -> (is_shift o = false -> in_range T y) -> bits_ok T o y ->
+  (if is_shift o then ev2 (uop2 T o) (wrap y) (wrap x) else ev2 (uop2 T o) (wrap x) (wrap y)) = wrap (umath o x y).
+Proof.
+  intros OkT Hx Hy B. pose proof W_val. pose proof HALF_val. pose proof (range_words T x OkT Hx) as Fx.
+  destruct o; cbn [bits_ok] in B; try contradiction; cbn [is_shift uop2 umath ev2] in *.
+  - subst T. specialize (Hy eq_refl). pose proof (range_words _ y OkT Hy) as Fy. cbn in Fy. apply w_exp_wrap. exact Fy.
+  - destruct B as [_ [_ By]]. rewrite (wrap_small y) by exact By. apply w_shl_wrap. exact By.
+  - destruct B as [K [_ By]]. rewrite (wrap_small y) by exact By.
+    destruct (nsigned T); cbn [fits256 ev2] in *.
+    + apply w_sar_wrap; assumption.
+    + unfold uword in Fx. rewrite (wrap_small x) by exact Fx. apply w_shr_wrap; assumption.
+  - apply w_and_wrap. - apply w_or_wrap. - apply w_xor_wrap.
+Qed.
+
+Theorem unsafe_bits_exact T o e ea eb x y : ty_ok T -> in_range T x -> (is_shift o = false -> in_range T y) ->
+  bits_ok T o y -> leval e ea = Val (wrap x) -> leval e eb = Val (wrap y) ->
+  leval e (m_unsafe T o ea eb) = Val (wrap (umath o x y)).
+Proof.
+  intros OkT Hx Hy B Ha Hb. pose proof (bits_word T o x y OkT Hx Hy B) as BW.
+  unfold m_unsafe. replace (is_arith o) with false by (destruct o; cbn in B; try contradiction; reflexivity).
+  cbn [andb].
+  assert (COMM : is_bitop o = true -> ev2 (uop2 T o) (wrap y) (wrap x) = ev2 (uop2 T o) (wrap x) (wrap y)).
+  { destruct o; try discriminate; intros _; cbn [uop2 ev2]; unfold w_and, w_or, w_xor;
+      [apply Z.land_comm | apply Z.lor_comm | apply Z.lxor_comm]. }
+  destruct (is_shift o) eqn:S; cbn [orb].
+  - cbn [leval]. rewrite Ha, Hb. rewrite BW. reflexivity.
+  - destruct (is_bitop o) eqn:BO; cbn [leval]; rewrite ?Ha, ?Hb; cbn [leval]; rewrite ?Ha, ?Hb.
+    + rewrite (COMM eq_refl), BW. reflexivity.
+    + rewrite BW. reflexivity.
+Qed.
+
+Theorem vunsafe_bits_exact T o x y : ty_ok T -> in_range T x -> (is_shift o = false -> in_range T y) ->
+  bits_ok T o y ->
+  vrun (venv2 x y) (v_unsafe T o) = Val (wrap (umath o x y)).
+Proof.
+  intros OkT Hx Hy B. pose proof (bits_word T o x y OkT Hx Hy B) as BW.
+  unfold v_unsafe. replace (is_arith o) with false by (destruct o; cbn in B; try contradiction; reflexivity).
+  cbn [andb]. destruct (is_shift o); pstep; unfold enc; rewrite BW; reflexivity.
+Qed.
+
+(* for the 256-bit types the word of umath is also the word of the wrapped value *)
+Corollary unsafe_spec_256 s d o x y : wrap (unsafe_spec (Build_nty 32 s d) o x y) = wrap (umath o x y).
+Proof. apply wrap_twrap256. Qed.
